@@ -642,6 +642,7 @@ class UDPTunnel(_Tunnel):
         if (
             self._invalid_sequence_number_reconnect_task is None
             and self._reconnect_task is None
+            and not self._closing  # the user is disconnecting
         ):
             self._invalid_sequence_number_reconnect_task = asyncio.create_task(
                 _schedule_tunnel_lost()
